@@ -911,7 +911,17 @@ func TestVerifC15(t *testing.T) {
 	o.Rule = "per case: random WAL messages of all kinds written through the real BaseWAL (Write/WriteSync, head-size ticks, flushes); " +
 		"then GroupReader/os.File decodes, SearchForEndHeight and repairWalFile on the written bytes and on truncated / bit-flipped / " +
 		"length-edited / spliced / garbage-extended copies (exhaustive offsets for small logs)"
-	tmp, err := os.MkdirTemp(*c15Dir, "wal")
+	// WAL files of the cases: $TMPDIR if set, else /dev/shm (fsync-heavy: tmpfs is ~3x faster), else the -out directory
+	scratch := *c15Dir
+	if d := os.Getenv("TMPDIR"); d != "" {
+		scratch = d
+	} else if st, err := os.Stat("/dev/shm"); err == nil && st.IsDir() {
+		scratch = "/dev/shm"
+	}
+	tmp, err := os.MkdirTemp(scratch, "verif_c15_wal")
+	if err != nil {
+		tmp, err = os.MkdirTemp(*c15Dir, "wal")
+	}
 	if err != nil {
 		t.Fatal(err)
 	}
@@ -930,10 +940,11 @@ func TestVerifC15(t *testing.T) {
 
 func (c *c15Case) run(tier string) {
 	r, o := c.r, c.o
-	profile := r.Pick(50, 34, 12, 4)
+	profile := r.Pick(50, 36, 14)
 	if c.idx%41 == 7 {
-		profile = 3
+		profile = 3 // megabyte-sized frames at the message size limit
 	}
+	c.addEntry(nil) // the empty payload (zero length field): what the real unmarshal path says about it
 	pname := []string{"small", "medium", "big", "maxsize"}[profile]
 	o.Count("profile:" + pname)
 	var limit int64
@@ -1187,7 +1198,11 @@ func (c *c15Case) run(tier string) {
 	}
 
 	// ---- live reads through the group the WAL wrote
-	for k := 0; k < 2; k++ {
+	nlive := 2
+	if profile == 3 {
+		nlive = 1
+	}
+	for k := 0; k < nlive; k++ {
 		idx := r.Intn(len(files))
 		cont := r.Bool()
 		gr, err := grp.NewReader(idx)
@@ -1227,6 +1242,9 @@ func (c *c15Case) run(tier string) {
 	nsearch := 3
 	if profile == 1 {
 		nsearch = 6
+	}
+	if profile == 3 {
+		nsearch = 1
 	}
 	for k := 0; k < nsearch; k++ {
 		var h int64
@@ -1367,7 +1385,7 @@ func (c *c15Case) variant(k string, cont bool, eds []c15Edit, exp []c15Written, 
 	if allocCheck {
 		var after runtime.MemStats
 		runtime.ReadMemStats(&after)
-		if d := after.TotalAlloc - before.TotalAlloc; d > uint64(len(data))*8+uint64(maxMsgSizeBytes)*4+(4<<20) {
+		if d := after.TotalAlloc - before.TotalAlloc; d > uint64(len(data))*64+uint64(maxMsgSizeBytes)*8+(8<<20) {
 			o.Fail(c.step, "allocation-above-limit", fmt.Sprintf("decoding %d bytes allocated %d bytes", len(data), d))
 		}
 	}
@@ -1487,9 +1505,14 @@ func (c *c15Case) corrupt(tier string, profile int) {
 	offs := c.frameOffsets()
 	// unmodified copies: everything written comes back, through both readers
 	for _, k := range kinds {
+		if profile == 3 && k == "g" {
+			continue // the live read above went through the GroupReader already
+		}
 		c.variant(k, false, nil, c.exp, c.whole, false)
 	}
-	c.variant("g", true, nil, c.exp, c.whole, false)
+	if profile != 3 {
+		c.variant("g", true, nil, c.exp, c.whole, false)
+	}
 	c.repairVariant(nil, true)
 	if L == 0 {
 		return
@@ -1503,12 +1526,11 @@ func (c *c15Case) corrupt(tier string, profile int) {
 			}
 			var b [4]byte
 			binary.BigEndian.PutUint32(b[:], uint32(maxMsgSizeBytes)+uint32(i)-1)
-			c.variant(kinds[i%2], false, []c15Edit{{kind: "e", off: fo + 4, data: b[:]}}, c.exp, false, true)
+			c.variant(kinds[(i+1)%2], false, []c15Edit{{kind: "e", off: fo + 4, data: b[:]}}, c.exp, false, true)
 			o.Count("variant:length-edit")
 		}
 		n := r.Intn(L)
 		c.variant("g", false, []c15Edit{{kind: "t", off: n}}, c.exp, false, false)
-		c.repairVariant([]c15Edit{{kind: "t", off: n}}, true)
 		return
 	}
 	small := L <= 420
@@ -1619,6 +1641,7 @@ func (c *c15Case) corrupt(tier string, profile int) {
 		var eds []c15Edit
 		exp := c.exp
 		what := ""
+		atLimit := false
 		fi := r.Intn(len(offs))
 		fo := offs[fi]
 		switch r.Pick(4, 3, 3, 2, 2, 2, 2) {
@@ -1631,6 +1654,7 @@ func (c *c15Case) corrupt(tier string, profile int) {
 			switch r.Pick(2, 2, 2, 1, 1, 1) {
 			case 0:
 				nl = uint32(maxMsgSizeBytes) + uint32(r.Intn(3)) - 1
+				atLimit = true
 			case 1:
 				nl = uint32(r.U64())
 			case 2:
@@ -1664,6 +1688,7 @@ func (c *c15Case) corrupt(tier string, profile int) {
 			default: // header announcing exactly the limit, little data
 				gb = make([]byte, 8)
 				binary.BigEndian.PutUint32(gb[4:], uint32(maxMsgSizeBytes)+uint32(r.Intn(2)))
+				atLimit = true
 				gb = append(gb, r.Bytes(r.Intn(30))...)
 			}
 			eds = []c15Edit{{kind: "a", data: gb}}
@@ -1714,14 +1739,22 @@ func (c *c15Case) corrupt(tier string, profile int) {
 			eds = []c15Edit{{kind: "e", off: fo, data: r.Bytes(4)}}
 		}
 		o.Count("variant:" + what)
-		switch r.Pick(5, 2, 2) {
+		which := r.Pick(5, 2, 2)
+		if atLimit {
+			which = 0
+		}
+		switch which {
 		case 0:
 			// deletions/insertions may re-align a later written frame: the order check still applies (subsequence) in ignore mode
 			cont := r.Chance(1, 3)
 			if what == "bytes-deleted" || what == "bytes-inserted" {
 				cont = true
 			}
-			c.variant(kinds[r.Intn(2)], cont, eds, exp, false, what == "length-edit" || what == "garbage-suffix")
+			k := kinds[r.Intn(2)]
+			if atLimit && !r.Chance(1, 12) {
+				k = "g" // the os.File reader zero-fills and checksums a megabyte here (done, rarely)
+			}
+			c.variant(k, cont, eds, exp, false, what == "length-edit" || what == "garbage-suffix")
 		case 1:
 			c.repairVariant(eds, false)
 		default:
